@@ -10,6 +10,28 @@ namespace c13 {
 using namespace vf;
 
 constexpr int ZONE = 256, BUFMAX = 1200;
+#if defined(VF_FUZZ_HEAP)
+// libFuzzer / ASan build: an exact-size heap buffer, so that any access outside [first,last) — reads included — is an ASan report
+struct GuardedBuffer {
+    char* first;
+    char* last;
+    explicit GuardedBuffer(int len)
+        : first(new char[static_cast<std::size_t>(len)])
+        , last(first + len)
+    {
+        std::memset(first, 0xEE, static_cast<std::size_t>(len));
+    }
+    GuardedBuffer(GuardedBuffer const&) = delete;
+    ~GuardedBuffer() { delete[] first; }
+    long outside_write() const { return LONG_MIN; }
+    bool untouched(char const* from) const
+    {
+        for (char const* p = from; p < last; ++p)
+            if (static_cast<unsigned char>(*p) != 0xEE) return false;
+        return true;
+    }
+};
+#else
 struct GuardedBuffer {
     unsigned char mem[ZONE + BUFMAX + ZONE];
     char* first;
@@ -37,6 +59,7 @@ struct GuardedBuffer {
         return true;
     }
 };
+#endif
 
 // parse  -? digits* [ '.' digits* ] [ 'e' -? digits ]  (at least one digit) into an exact rational; false if malformed
 inline bool parse_decimal(std::string const& s, mpq_class& out, int& frac_digits_printed, int& exp10)
